@@ -9,6 +9,7 @@ import PdshVerif.Pcp.Mixed
 import PdshVerif.Pcp.MeetsSpec
 import PdshVerif.Pcp.Overwrite
 import PdshVerif.Pcp.Merge
+import PdshVerif.Pcp.Recopy
 
 /-! # C11  pdcp/rpdcp reproduce the source tree exactly on every target
 
@@ -38,6 +39,9 @@ write faults (`o.fsize = none`).  Times are in microseconds, the resolution of t
                         sent, existing directories are entered (with -p re-moded, and re-timed after their entries), what is
                         missing is created as in `copy_roundtrip`, what the source does not name stays; all replies positive
                         (`feed_tree_merge`, Pcp/Merge.lean; generalises `feed_tree`: on fresh names `mergeKids = recvKids`).
+* `copy_twice`       -- copying the same sources again: what the first copy left is compatible with them
+                        (`compat_after_copy`), the second copy is acknowledged throughout and leaves every file with
+                        exactly the source's bytes.
 * `file_any_size`    -- the single-file case spelled out at the byte level: record + data + NUL, any
                         length (0, 1, ..., beyond several BUFSIZ blocks: `foldl_data` = blocks_concat).
 * `received_file`, `preserve_meta_file`
@@ -259,6 +263,28 @@ theorem overwritten_exact (o : Opts) (hnf : o.fsize = none) (ss : Bool) (fs : FS
     (hd : kids.Pairwise (fun a b => a.1 ≠ b.1)) :
     ∃ mo tm, mergeKids o ss fs q kids (q ++ [n]) = some (.file mo tm d) :=
   merged_file_data o hnf ss fs q kids n m t a d hm hd
+
+/-- **Copying the same sources again.**  Under the hypotheses of `copy_roundtrip`, what the first copy leaves
+behind is compatible with the sources (`compat_after_copy`), so the second copy falls under `copy_onto_existing`:
+it is acknowledged record by record and every regular file holds exactly the source's bytes again
+(`overwritten_exact`). -/
+theorem copy_twice (o : Opts) (hc : CntOk o) (hnf : o.fsize = none) (so : SOpts)
+    (hp : so.preserve = o.preserve) (fs : FS)
+    (D : Path) (srcs : List (Str × Tree)) (budget : Nat)
+    (hres : resolve fs o.cwd o.dest = some D) (hdir : fs.isDir D = true)
+    (hsrc : SrcsOk so srcs) (hb : o.dest.length + budget < PCP_PATH_MAX)
+    (hgood : GoodKids budget (namedSrcs so srcs))
+    (hfresh : ∀ n k, (n, k) ∈ namedSrcs so srcs → FreshBelow fs (D ++ [n])) :
+    (sink o (sink o fs (send so srcs)).1 (send so srcs)).1 =
+      mergeKids o so.subsec (sink o fs (send so srcs)).1 D (namedSrcs so srcs) ∧
+    ∀ r ∈ (sink o (sink o fs (send so srcs)).1 (send so srcs)).2.1, r = Reply.ack := by
+  obtain ⟨h1, _, _, _, _, hmono⟩ := copy_with_write_faults o hc so hp fs D srcs budget hres hdir hsrc hb hgood hfresh
+  have hc1 : CompatKids (sink o fs (send so srcs)).1 D (namedSrcs so srcs) := by
+    rw [h1]
+    exact compat_after_copy o so.subsec _ budget fs D hgood hfresh
+  obtain ⟨a, b, _⟩ := copy_onto_existing o hc hnf so hp _ D srcs budget (resolve_mono hmono hres) (hmono _ hdir) hsrc hb
+    hgood hc1
+  exact ⟨a, b⟩
 
 /-- **One file of any size** at the byte level (`feed_C` re-stated): at a record boundary in a
 directory, `C<mode> <size> <name>\n` + the bytes + NUL create exactly that file, with two
@@ -1105,6 +1131,14 @@ example :
     (sink xo efs (send xso xsrcs)).1 [[119], [100], [116], [101]] = some (.file 0o640 (some ⟨3000, 250⟩) [88]) ∧
     (sink xo efs (send xso xsrcs)).1 [[119], [100], [116]] = some (.dir 0o750 (some ⟨1000, 7⟩)) ∧
     (∀ r ∈ (sink xo efs (send xso xsrcs)).2.1, r = Reply.ack) := by
+  decide +kernel
+
+/-- `copy_twice` on the instance of `copy_roundtrip`'s example: the second copy of `t` is acknowledged throughout and
+`t/e` holds the source's byte, mode and time again -/
+example :
+    (sink xo (sink xo xfs (send xso xsrcs)).1 (send xso xsrcs)).1 [[119], [100], [116], [101]] =
+      some (.file 0o640 (some ⟨3000, 250⟩) [88]) ∧
+    (∀ r ∈ (sink xo (sink xo xfs (send xso xsrcs)).1 (send xso xsrcs)).2.1, r = Reply.ack) := by
   decide +kernel
 
 end PdshVerif.Props.C11
